@@ -261,8 +261,21 @@ func (m *Machine) assert(fr *frame, c *Term, label string) {
 func (m *Machine) recordViolation(kind, label, where string, model map[string]uint64) {
 	key := m.entry + "/" + kind + "/" + label
 	if kind == "panic" {
-		key += "@" + where
+		top := where
+		if i := strings.Index(top, " <- "); i >= 0 {
+			top = top[:i]
+		}
+		if i := strings.LastIndex(top, "@"); i >= 0 {
+			top = top[i+1:] // file:line of the faulting instruction
+		}
+		key += "@" + top
 	}
+	key = strings.Map(func(r rune) rune {
+		if r == ' ' || r == '\t' || r == '\n' {
+			return '_'
+		}
+		return r
+	}, key)
 	if m.violKeys[key] {
 		m.dupViolations++
 		return
